@@ -65,6 +65,7 @@ type link struct {
 	expOff        *int64
 	expAbs        *int64 // absolute expiration in Unix seconds (for instants a Duration cannot reach)
 	missing       bool   // not in the store
+	undefCid      bool   // referenced by the undefined CID (nothing can be loaded under it)
 }
 
 type mapLoader map[cid.Cid]*delegation.Token
@@ -84,8 +85,11 @@ type chainCase struct {
 	links                  []link
 	hook                   int // 0 none, 1 failing, 2 replaces args with hookArgs
 	hookArgs               [][2]any
-	sealed                 bool // every delegation goes through ToSealed / FromSealed before it is loaded
-	warm                   bool // a first ExecutionAllowed with every delegation loadable precedes the observed call
+	sealed                 bool   // every delegation goes through ToSealed / FromSealed before it is loaded
+	warm                   bool   // a first ExecutionAllowed with every delegation loadable precedes the observed call
+	invExpAbs              *int64 // absolute expiration of the invocation in Unix seconds
+	argsSplit              bool   // the first argument is given by WithArgument, then all of them (the first with a decoy value) by WithArguments
+	realClock              string // "": bounds far from now; otherwise the case was timed against the wall clock (tag suffix)
 }
 
 type chainEnv struct {
@@ -110,6 +114,13 @@ func bigNsW(sec int64) W {
 		return W("i-" + new(big.Int).Neg(v).Text(16) + ";")
 	}
 	return W("i" + v.Text(16) + ";")
+}
+
+func (e *chainEnv) invExpW(cc chainCase) W {
+	if cc.invExpAbs != nil {
+		return bigNsW(*cc.invExpAbs - e.t0.Unix())
+	}
+	return optW(cc.expOff)
 }
 
 // expW: the expiration of a link relative to the run's reference instant, in nanoseconds
@@ -190,6 +201,10 @@ func (e *chainEnv) run(tag string, cc chainCase) {
 	var storeW []W
 	for k, l := range cc.links {
 		ci := fakeCid(k)
+		if l.undefCid {
+			prf = append(prf, cid.Undef)
+			continue
+		}
 		prf = append(prf, ci)
 		if l.missing && !cc.warm {
 			continue
@@ -209,6 +224,13 @@ func (e *chainEnv) run(tag string, cc chainCase) {
 			KV{"cmd", WStr(l.cmd)}, KV{"pol", polWire(l.pol)}, KV{"nbf", optW(l.nbfOff)}, KV{"exp", e.expW(l)})))
 	}
 	opts := []invocation.Option{invocation.WithArguments(buildArgs(cc.args))}
+	if cc.argsSplit && len(cc.args) > 0 {
+		decoy := append([][2]any{{cc.args[0][0], "decoy-value-that-must-be-dropped"}}, cc.args[1:]...)
+		opts = []invocation.Option{invocation.WithArgument(cc.args[0][0].(string), cc.args[0][1]), invocation.WithArguments(buildArgs(decoy))}
+	}
+	if cc.invExpAbs != nil {
+		opts = append(opts, invocation.WithExpiration(time.Unix(*cc.invExpAbs, 0)))
+	}
 	if cc.invAud >= 0 {
 		opts = append(opts, invocation.WithAudience(e.dids[cc.invAud]))
 	}
@@ -238,10 +260,18 @@ func (e *chainEnv) run(tag string, cc chainCase) {
 		fmt.Fprintln(os.Stderr, "inv.New:", err)
 		return
 	}
-	argsNode, err := inv.Arguments().ToIPLD()
+	// the arguments the caller asked for (the model's input), and whether the token holds exactly those
+	argsNode, err := buildArgs(cc.args).ToIPLD()
 	if err != nil {
 		return
 	}
+	argsHeld := false
+	func() {
+		defer func() { recover() }()
+		if got, err := inv.Arguments().ToIPLD(); err == nil && datamodel.DeepEqual(got, argsNode) {
+			argsHeld = true
+		}
+	}()
 	var prfW []W
 	for _, p := range prf {
 		prfW = append(prfW, WBytes(p.Bytes()))
@@ -251,7 +281,7 @@ func (e *chainEnv) run(tag string, cc chainCase) {
 		audEff = cc.invAud
 	}
 	invW := WMap(KV{"iss", didW(e.dids, cc.invIss)}, KV{"sub", didW(e.dids, cc.invSub)}, KV{"aud", didW(e.dids, audEff)},
-		KV{"cmd", WStr(cc.cmd)}, KV{"args", WNode(argsNode)}, KV{"prf", WList(prfW...)}, KV{"exp", optW(cc.expOff)})
+		KV{"cmd", WStr(cc.cmd)}, KV{"args", WNode(argsNode)}, KV{"prf", WList(prfW...)}, KV{"exp", e.invExpW(cc)})
 	var allowed bool
 	hookW := WNull
 	panicked := false
@@ -276,6 +306,10 @@ func (e *chainEnv) run(tag string, cc chainCase) {
 		nn, _ := na.Clone().ToIPLD()
 		hookW = WList(WNode(nn))
 		allowed = inv.ExecutionAllowedWithArgsHook(ld, func(a args.ReadOnly) (*args.Args, error) { return na, nil }) == nil
+	}
+	if !argsHeld {
+		e.c.Emit(tag, WList(WStr("exec"), invW, WList(storeW...), WInt(0), hookW), WStr("the invocation does not hold the arguments it was given"))
+		return
 	}
 	e.c.Emit(tag, WList(WStr("exec"), invW, WList(storeW...), WInt(0), hookW), WBool(allowed))
 }
@@ -305,6 +339,31 @@ func failStmts() []pstmt {
 
 func genChain(c *Ctx) {
 	keys, dids := detPrincipals(5)
+	// principals 5, 6, 7: DIDs whose text differs from that of principals 0, 1, 2 only in the case of one letter
+	for i := 0; i < 3; i++ {
+		txt := []byte(dids[i].String())
+		for pos := len(txt) - 1; pos > 12; pos-- {
+			ch := txt[pos]
+			var fl byte
+			switch {
+			case ch >= 'a' && ch <= 'z':
+				fl = ch - 32
+			case ch >= 'A' && ch <= 'Z':
+				fl = ch + 32
+			default:
+				continue
+			}
+			if strings.IndexByte("OIl", fl) >= 0 {
+				continue
+			}
+			t2 := append([]byte{}, txt...)
+			t2[pos] = fl
+			if d2, err := did.Parse(string(t2)); err == nil && d2 != dids[i] {
+				dids = append(dids, d2)
+				break
+			}
+		}
+	}
 	e := &chainEnv{c: c, keys: keys, dids: dids, t0: time.Now(), memo: map[string]*delegation.Token{}}
 	cmds := []string{"/", "/a", "/a/b", "/ab", "/b"}
 
@@ -570,10 +629,12 @@ func genChain(c *Ctx) {
 		switch v {
 		case 0:
 			return [][2]any{{"name", "機密-budget.xlsx"}, {"file", "café.png"}, {"bio", strings.Repeat("привет мир ", 6)}, {"path", "/backup/latest.tar"},
-				{"user", "admin-admin"}, {"host", "api.eu.eu.example.com"}, {"to", []any{"a@example.com", "b@example.com"}}}
+				{"user", "admin-admin"}, {"host", "api.eu.eu.example.com"}, {"to", []any{"a@example.com", "b@example.com"}},
+				{"req", J(`{"mode":null,"owner":null,"path":"/public/x"}`)}}
 		case 1:
 			return [][2]any{{"name", "né-budget"}, {"file", "a.png"}, {"bio", "abc"}, {"path", "/backup/x/backup/latest.tar"},
-				{"user", "admin-x-admin"}, {"host", "aaab"}, {"to", []any{"a@example.com", "b@example.com", "c@evil.org"}}}
+				{"user", "admin-x-admin"}, {"host", "aaab"}, {"to", []any{"a@example.com", "b@example.com", "c@evil.org"}},
+				{"req", J(`{"mode":"readonly","owner":"alice"}`)}}
 		default:
 			return [][2]any{{"name", "機密"}, {"file", "né.jpeg"}, {"bio", strings.Repeat("ö", 50)}, {"path", "/backup/"},
 				{"user", "admin-"}, {"host", ".eu.example.com"}, {"to", []any{"x@example.com"}}}
@@ -588,6 +649,9 @@ func genChain(c *Ctx) {
 		{kind: "all", sel: ".to[1:]", subs: []pstmt{{kind: "like", sel: ".", pat: "*@example.com"}}},
 		{kind: "any", sel: ".to[:-1]", subs: []pstmt{{kind: "like", sel: ".", pat: "b@*"}}},
 		{kind: "==", sel: ".file[1:][1:]", val: J(`"fé.png"`)}, {kind: "==", sel: ".file[2:][:2]", val: J(`"fé"`)},
+		{kind: "==", sel: ".req.mode?", val: J(`"readonly"`)}, {kind: "like", sel: ".req.path?", pat: "/public/*"},
+		{kind: "not", subs: []pstmt{{kind: "==", sel: ".req.owner?", val: J(`null`)}}}, {kind: "like", sel: ".req.mode?", pat: "*"},
+		{kind: "==", sel: ".req?.mode?", val: J(`null`)},
 	}
 	for round := 0; round < 2; round++ {
 		for v := 0; v < 3; v++ {
@@ -628,6 +692,88 @@ func genChain(c *Ctx) {
 		}
 	}
 
+	// ---- 3e2. a proof list that references the undefined CID; principals that look alike (text equal up to letter
+	// case) in each role; commands with empty segments through sealed delegations; arguments given through two options
+	for L := 1; L <= 3; L++ {
+		for pos := 0; pos < L; pos++ {
+			mk := func() []link {
+				links := make([]link, L)
+				for k := 0; k < L; k++ {
+					links[k] = link{iss: k + 1, aud: k, sub: L, cmd: "/"}
+					if k == L-1 {
+						links[k].iss = L
+					}
+				}
+				return links
+			}
+			// a valid chain with one more entry, the undefined CID, at position pos (and one replacing the entry)
+			ls := mk()
+			ins := append(append(append([]link{}, ls[:pos]...), link{undefCid: true}), ls[pos:]...)
+			e.run("chain/undef-cid", chainCase{invIss: 0, invSub: L, invAud: -1, cmd: "/a", args: stdArgs, links: ins})
+			ls = mk()
+			ls[pos].undefCid = true
+			e.run("chain/undef-cid", chainCase{invIss: 0, invSub: L, invAud: -1, cmd: "/a", args: stdArgs, links: ls})
+			if len(e.dids) >= 8 && L <= 2 {
+				// look-alikes: only principals 0..2 have one (index + 5)
+				for _, role := range []string{"aud", "iss", "sub"} {
+					ls = mk()
+					switch role {
+					case "aud":
+						if ls[pos].aud <= 2 {
+							ls[pos].aud += 5
+						}
+					case "iss":
+						if ls[pos].iss <= 2 {
+							ls[pos].iss += 5
+						}
+					case "sub":
+						if ls[pos].sub <= 2 {
+							ls[pos].sub += 5
+						}
+					}
+					e.run("chain/lookalike-"+role, chainCase{invIss: 0, invSub: L, invAud: -1, cmd: "/a", args: stdArgs, links: ls})
+				}
+				ls = mk()
+				e.run("chain/lookalike-invoker", chainCase{invIss: 5, invSub: L, invAud: -1, cmd: "/a", args: stdArgs, links: ls})
+			}
+			ls = mk()
+			e.run("chain/args-two-options", chainCase{invIss: 0, invSub: L, invAud: -1, cmd: "/a", args: stdArgs, links: ls, argsSplit: true})
+			ls = mk()
+			ls[pos].pol = []pstmt{{kind: "==", sel: ".a", val: J("5")}}
+			e.run("chain/args-two-options", chainCase{invIss: 0, invSub: L, invAud: -1, cmd: "/a", args: stdArgs, links: ls, argsSplit: true, sealed: true})
+		}
+	}
+	elat := []string{"/a//b", "/a/b", "/a", "/a//b/c", "//a", "/", "/a//", "/store//admin", "/store/admin"}
+	for L := 1; L <= 2; L++ {
+		for pos := 0; pos < L; pos++ {
+			for _, upper := range elat {
+				for _, lower := range elat {
+					links := make([]link, L)
+					for k := 0; k < L; k++ {
+						links[k] = link{iss: k + 1, aud: k, sub: L, cmd: "/"}
+						if k == L-1 {
+							links[k].iss = L
+						}
+						switch {
+						case k == pos:
+							links[k].cmd = upper
+						case k < pos:
+							links[k].cmd = lower
+						}
+					}
+					e.run("chain/cmd-empty-segments", chainCase{invIss: 0, invSub: L, invAud: -1, cmd: lower, args: stdArgs, links: links, sealed: true})
+				}
+			}
+		}
+	}
+	// an invocation whose own expiration is Go's zero time (year 1), the epoch, or far away
+	for _, ab := range []int64{-62135596800, -62135596799, 0, 253402300799} {
+		for _, sealedD := range []bool{false, true} {
+			links := []link{{iss: 1, aud: 0, sub: 1, cmd: "/"}}
+			e.run("chain/extreme-exp/invocation", chainCase{invIss: 0, invSub: 1, invAud: -1, cmd: "/a", args: stdArgs, links: links, sealed: sealedD, invExpAbs: i64(ab)})
+		}
+	}
+
 	// ---- 3f. bounds at the ends of the representable range, through sealed delegations: expiration at the
 	// epoch (0), one second after it, "never" as 9999-12-31, and the largest timestamp the wire allows
 	for _, ab := range []struct {
@@ -650,6 +796,57 @@ func genChain(c *Ctx) {
 					e.run("chain/extreme-exp/"+ab.name, chainCase{invIss: 0, invSub: L, invAud: -1, cmd: "/a", args: stdArgs, links: links, sealed: sealed})
 				}
 			}
+		}
+	}
+
+	// ---- 3g. the wall-clock path of ExecutionAllowed at sub-second distances from a bound: a not-before set "now"
+	// (checked a moment later, within the same second) and an expiration at a whole second E, checked before E and
+	// a quarter of a second after it (this group sleeps for up to 2.3 s)
+	{
+		clockCase := func(tag string, dopts []delegation.Option, iopts []invocation.Option, nbfNs, expNs, iexpNs W) {
+			dopts = append(dopts, delegation.WithSubject(dids[1]))
+			d, err := delegation.New(dids[1], dids[0], command.Command("/"), nil, dopts...)
+			if err != nil {
+				return
+			}
+			ci := fakeCid(0)
+			inv, err := invocation.New(dids[0], dids[1], command.Command("/a"), []cid.Cid{ci}, iopts...)
+			if err != nil {
+				return
+			}
+			allowed := inv.ExecutionAllowed(mapLoader{ci: d}) == nil
+			storeW := WList(WList(WBytes(ci.Bytes()), WMap(KV{"iss", didW(dids, 1)}, KV{"aud", didW(dids, 0)}, KV{"sub", didW(dids, 1)},
+				KV{"cmd", WStr("/")}, KV{"pol", WList()}, KV{"nbf", nbfNs}, KV{"exp", expNs})))
+			invW := WMap(KV{"iss", didW(dids, 0)}, KV{"sub", didW(dids, 1)}, KV{"aud", WStr("")}, KV{"cmd", WStr("/a")},
+				KV{"args", WMap()}, KV{"prf", WList(WBytes(ci.Bytes()))}, KV{"exp", iexpNs})
+			c.Emit(tag, WList(WStr("execclock"), invW, storeW, WInt(0), WNull), WBool(allowed))
+		}
+		// make sure the instant of construction is not on a whole second
+		for time.Now().Nanosecond() < 50e6 || time.Now().Nanosecond() > 700e6 {
+			time.Sleep(20 * time.Millisecond)
+		}
+		clockCase("chain/clock/nbf-now", []delegation.Option{delegation.WithNotBeforeIn(0)}, nil, WInt(-1000), WNull, WNull)
+		clockCase("chain/clock/nbf-now", []delegation.Option{delegation.WithNotBeforeIn(-time.Millisecond)}, nil, WInt(-1000000), WNull, WNull)
+		E := time.Now().Truncate(time.Second).Add(2 * time.Second)
+		clockCase("chain/clock/exp-ahead", []delegation.Option{delegation.WithExpiration(E)}, nil, WNull, WInt(int64(time.Second)), WNull)
+		clockCase("chain/clock/exp-ahead", nil, []invocation.Option{invocation.WithExpiration(E)}, WNull, WNull, WInt(int64(time.Second)))
+		dE, errD := delegation.New(dids[1], dids[0], command.Command("/"), nil, delegation.WithSubject(dids[1]), delegation.WithExpiration(E))
+		ci := fakeCid(0)
+		invE, errI := invocation.New(dids[0], dids[1], command.Command("/a"), []cid.Cid{ci}, invocation.WithExpiration(E))
+		invP, errP := invocation.New(dids[0], dids[1], command.Command("/a"), []cid.Cid{ci})
+		dP, errQ := delegation.New(dids[1], dids[0], command.Command("/"), nil, delegation.WithSubject(dids[1]))
+		if errD == nil && errI == nil && errP == nil && errQ == nil {
+			time.Sleep(time.Until(E.Add(250 * time.Millisecond)))
+			past := WInt(-int64(250 * time.Millisecond))
+			mk := func(nbf, exp, iexp W, allowed bool) {
+				storeW := WList(WList(WBytes(ci.Bytes()), WMap(KV{"iss", didW(dids, 1)}, KV{"aud", didW(dids, 0)}, KV{"sub", didW(dids, 1)},
+					KV{"cmd", WStr("/")}, KV{"pol", WList()}, KV{"nbf", nbf}, KV{"exp", exp})))
+				invW := WMap(KV{"iss", didW(dids, 0)}, KV{"sub", didW(dids, 1)}, KV{"aud", WStr("")}, KV{"cmd", WStr("/a")},
+					KV{"args", WMap()}, KV{"prf", WList(WBytes(ci.Bytes()))}, KV{"exp", iexp})
+				c.Emit("chain/clock/exp-just-passed", WList(WStr("execclock"), invW, storeW, WInt(0), WNull), WBool(allowed))
+			}
+			mk(WNull, past, WNull, invP.ExecutionAllowed(mapLoader{ci: dE}) == nil)
+			mk(WNull, WNull, past, invE.ExecutionAllowed(mapLoader{ci: dP}) == nil)
 		}
 	}
 
